@@ -45,6 +45,12 @@ def selfcheck() -> int:
         n_inl = inline_selftest()
     except AssertionError as e:
         raise AnalysisError(str(e))
+    # the flow evaluator (sa/lexsim.py) agrees with CPython on its own fixtures
+    from .selftest_lexsim import run as lexsim_selftest
+    try:
+        n_sim = lexsim_selftest()
+    except AssertionError as e:
+        raise AnalysisError(str(e))
     for line in getattr(prog, "inline_report", []):
         print("selfcheck: inline:", line)
     cat = catalogue(prog)
@@ -54,5 +60,5 @@ def selfcheck() -> int:
     print(f"selfcheck OK: {len(prog.mods)} modules, {len(prog.classes)} classes, {len(prog.fns)} functions, "
           f"{len(rm.primaries)} primaries, {len(rm.checks)} checks, {len(cat)} catalogue codes, "
           f"{len(es)} emission sites, {len(cg.calls)} call sites ({len(cg.unresolved)} unresolved: "
-          f"{sorted({ast.unparse(n.func) for _, n in cg.unresolved})}); inliner self-test {n_inl} cases")
+          f"{sorted({ast.unparse(n.func) for _, n in cg.unresolved})}); inliner self-test {n_inl} cases, flow-evaluator self-test {n_sim} cases")
     return 0
